@@ -24,9 +24,12 @@ def needed_ids(dkmax, has_add, n):
     return sorted(ids)
 
 
-def tempo_line(tempo, n):
+def tempo_line(tempo, n, res=None):
     """protocol line for a real (un-run) oqupy.Tempo object, n steps.
-    Tables are the *real* influence_matrix outputs; propagators the real ones."""
+    Tables are the *real* influence_matrix outputs (the module-level function whose formula and
+    arguments C01 regenerates and characterises); propagators the real ones.  With `res`, the
+    table the Tempo object hands to its backend (`Tempo._influence`) is compared bit for bit with
+    that function for every table id the run can ask for."""
     d = tempo._dimension
     L = d * d
     par = tempo._parameters
@@ -42,17 +45,35 @@ def tempo_line(tempo, n):
     for k in range(1, n + 1):
         p1, p2 = props(k - 1)
         secs += [flat(p1), flat(p2)]
-    was_unique = tempo._unique
-    tempo._unique = False
-    try:
-        for i in needed_ids(dkmax, has_add, n):
-            tbl = tempo._influence(i)
-            if i == 0:
-                tbl = np.diag(np.diag(tbl)) if tbl.ndim == 2 else np.diag(tbl)
-                # dk = 0: factor for the pair (a_n, a_n): only the diagonal is used
-            secs.append("%d %s" % (i, flat(tbl)))
-    finally:
-        tempo._unique = was_unique
+    from oqupy.tempo import influence_matrix
+    unique = bool(tempo._unique)
+    if unique:
+        north, west = tempo._bath.north_degeneracy_map, tempo._bath.west_degeneracy_map
+        npos = [int(np.where(north == c)[0][0]) for c in range(int(north.max()) + 1)]
+        wpos = [int(np.where(west == c)[0][0]) for c in range(int(west.max()) + 1)]
+    # ask in the order the backend asks (ascending steps), so that any state the object keeps
+    # between requests sees the same history as in a run
+    order = sorted(needed_ids(dkmax, has_add, n), key=lambda i: (i < 0, abs(i)))
+    for i in order:
+        tbl = influence_matrix(i, parameters=par, correlations=tempo._correlations,
+                               coupling_acomm=tempo._bath.coupling_acomm,
+                               coupling_comm=tempo._bath.coupling_comm)
+        if res is not None:
+            via_object = tempo._influence(i)
+            expected = tbl
+            if unique and tbl is not None:
+                expected = np.diag(tbl)[npos] if i == 0 else tbl[np.ix_(npos, wpos)]
+            if via_object is None or expected is None or via_object.shape != expected.shape \
+                    or not np.array_equal(via_object, expected):
+                res.disagree("Tempo._influence(%d) is not influence_matrix(%d, ...) of the "
+                             "object's own parameters, correlations and coupling%s"
+                             % (i, i, " read at the class representatives" if unique else ""),
+                             {"dk": i, "dkmax": dkmax, "dt": par.dt, "unique": unique,
+                              "add_correlation_time": par.add_correlation_time})
+        if i == 0:
+            tbl = np.diag(np.diag(tbl)) if tbl.ndim == 2 else np.diag(tbl)
+            # dk = 0: factor for the pair (a_n, a_n): only the diagonal is used
+        secs.append("%d %s" % (i, flat(tbl)))
     return " | ".join(secs)
 
 
